@@ -43,7 +43,11 @@ def nexpr(r) -> str:
         md = F.pval(r["metadata"]) if "metadata" in r else "(VDict [])"
         return f"(NGraph {ch} {es} {md})"
     args = F.clist([f"({F.cstr(k)}, {F.pval(v)})" for k, v in r["args"].items()])
-    return f"(NCons {KINDS[r['k']]} {args})"
+    t = f"(NCons {KINDS[r['k']]} {args})"
+    if "set_types" in r:
+        from .values import mat_ty
+        t = f"(NTyped {t} {F.ty(mat_ty(r['set_types']['in']))} {F.ty(mat_ty(r['set_types']['out']))})"
+    return t
 
 
 def result_term(ok: bool, term: str = "") -> str:
